@@ -148,6 +148,10 @@ impl Obj {
         (0..n).map(|_| bits(catch(|| each!(self, d => d.sample())))).collect()
     }
 }
+/// parameter regions where 40 000 draws are cheap (rates / counts that make each draw O(1) or short)
+fn bulk_safe(id: usize, p: &[Val]) -> bool {
+    sample_safe(id, p) && p.iter().all(|v| match v { Val::F(x) => x.is_finite() && x.abs() < 1e6, _ => true }) && match id { 2 => (p[0].i() as u64) < 10_000, _ => true }
+}
 const PANIC_BITS: u64 = 0x7ff8_dead_beef_0001;
 fn bits(r: Result<f64, String>) -> u64 { match r { Ok(x) => if x.is_nan() { 0x7ff8_0000_0000_0000 } else { x.to_bits() }, Err(_) => PANIC_BITS } }
 
@@ -431,6 +435,24 @@ pub fn oracle(tier: &str, seed: u64) -> (u64, Vec<Finding>) {
                 if step == len - 1 && sample_safe(id, &p) {
                     let a1 = o.draws(seed ^ 77, 8); let a2 = o.draws(seed ^ 77, 8);
                     if a1 != a2 { out.push(Finding { class: format!("sampling-not-reproducible:{}", sp.name), what: "two runs of 8 draws from the same seed differ".into(), input: hist.clone() }); }
+                    // ... and of BULK draws of every size (small, and beyond any internal batching threshold): the same seed gives the same stream
+                    // whether the draws are requested one at a time or in bulk
+                    if s < 2 && bulk_safe(id, &p) {
+                        for nb in [7usize, 1000, 40_000] {
+                            let inp = format!("{}; alea::set_seed({}); sample_n({})", hist, seed ^ 91, nb);
+                            crumb(&crumb_text(&inp)); tried += 1;
+                            alea::set_seed(seed ^ 91);
+                            let bulk: Result<Vec<u64>, String> = catch(|| each!(&o, d => d.sample_n(nb)).iter().map(|x| bits(Ok(*x))).collect());
+                            let single = o.draws(seed ^ 91, nb);
+                            match bulk {
+                                Err(e) => out.push(Finding { class: format!("bulk-sampling-panics:{}", sp.name), what: e, input: inp }),
+                                Ok(b) => if b != single {
+                                    let k = (0..nb).find(|&k| b.get(k) != single.get(k)).unwrap_or(0);
+                                    out.push(Finding { class: format!("bulk-draws-differ-from-single-draws:{}", sp.name), what: format!("from the same seed, sample_n({}) and {} successive sample() calls differ (first at draw {}; lengths {} / {})", nb, nb, k, b.len(), single.len()), input: inp });
+                                }
+                            }
+                        }
+                    }
                 }
             }
             // keep at most three findings per class
